@@ -17,6 +17,7 @@ for out,p in ps:
     for v in r["violations"]:
         first.setdefault(v["expect"]["class"], v)
     if r["nondeterminism"]: print("NONDET", r["nondeterminism"][:1])
+    for pp in r.get("panics",[])[:2]: print("PANIC", pp)
 print(f"{prop}: cases {tot} nontrivial {nt} discarded {disc}")
 print({k:v for k,v in cnt.items() if k.startswith('probe') or k.startswith('fault') or k.startswith('engine')})
 for k,v in sorted(classes.items(), key=lambda x:-x[1]):
